@@ -54,14 +54,262 @@ Proof.
   unfold cok. intros H. apply negb_true_iff in H. repeat (apply orb_false_iff in H; destruct H as [H ?]). auto.
 Qed.
 
+Lemma pop_inner_S f us ue x : pop_inner (S f) us ue x =
+  match peek1 (rest x) with
+  | None => PopEOF x
+  | Some (char, size) =>
+      if negb (is_bs char) then pop_finish us x char size
+      else
+        match peek1 (skipn size (rest x)) with
+        | None => pop_finish us x char size
+        | Some (temp, tsize) =>
+            if negb (is_nl temp) then
+              if ue then let '(char', size', x') := pop_escape x char size temp tsize in pop_finish us x' char' size'
+              else pop_finish us x char size
+            else
+              let x' := set_pos (line x + 1) 1 (advance (S size) x) in
+              match peek1 (rest x') with
+              | None => PopEOF x'
+              | Some _ => pop_inner f us ue x'
+              end
+        end
+  end.
+Proof. reflexivity. Qed.
+
 (* popping one ordinary character *)
 Lemma pop1_single us c t x : rest x = c :: t -> cok c = true ->
   match t with d :: _ => std_digraph c d = None | [] => True end ->
   pop1 us false x = PopOk [c] (mkst t (off x + 1)%nat (line x) (col x + 1) (errs x)).
 Proof.
   intros Hr Hc Hd. destruct (cok_inv c Hc) as (H92 & H63 & H10 & H9).
-  unfold pop1, pop_loop_bound. cbn [pop_inner]. rewrite Hr, (peek1_single c t H63 Hd).
+  unfold pop1, pop_loop_bound. rewrite pop_inner_S. rewrite Hr, (peek1_single c t H63 Hd).
   unfold is_bs, bs. cbn [str_eqb]. rewrite H92. cbn [andb negb].
   unfold pop_finish, is_nl, nl, ends_with. cbn [str_eqb List.length Nat.leb Nat.sub skipn andb]. rewrite H10.
   rewrite (N.eqb_sym 9 c), H9. cbn [andb]. unfold advance, set_pos. cbn [rest off line col errs]. rewrite Hr. reflexivity.
 Qed.
+
+(* ------------------------------------------------------------------ the comment loop stops at the first `*/` *)
+Lemma ends2 a b w x y : ends_with [a; b] (w ++ [x; y]) = N.eqb a x && (N.eqb b y && true).
+Proof.
+  unfold ends_with. rewrite app_length. cbn [List.length].
+  replace (List.length w + 2 - 2)%nat with (List.length w) by lia.
+  rewrite skipn_app, skipn_all, Nat.sub_diag. cbn [skipn app str_eqb].
+  replace (Nat.leb 2 (List.length w + 2)) with true by (symmetry; apply Nat.leb_le; lia). reflexivity.
+Qed.
+
+Lemma ends3 a b w p x y : ends_with [a; b] (w ++ [p; x; y]) = N.eqb a x && (N.eqb b y && true).
+Proof. change (w ++ [p; x; y]) with (w ++ [p] ++ [x; y]). rewrite app_assoc. apply ends2. Qed.
+
+Lemma pair_ok_inv a b : pair_ok a b = true -> std_digraph a b = None /\ N.eqb a 42 && N.eqb b 47 = false.
+Proof.
+  unfold pair_ok. intros H. apply andb_prop in H. destruct H as [H1 H2]. apply negb_true_iff in H2.
+  destruct (std_digraph a b); [discriminate|]. auto.
+Qed.
+
+Lemma chain_head c b z more : chain_ok c (b ++ [z]) = true ->
+  match b ++ z :: more with d :: _ => std_digraph c d = None | [] => True end.
+Proof.
+  destruct b as [|d b']; cbn [app chain_ok]; intros H; apply andb_prop in H; destruct H as [H _];
+    apply andb_prop in H; destruct H as [_ H]; apply pair_ok_inv in H; tauto.
+Qed.
+
+Lemma mc_chain : forall b prev w x tail fuel,
+  rest x = b ++ 42%N :: 47%N :: tail -> chain_ok prev (b ++ [42%N]) = true -> (List.length b + 2 <= fuel)%nat ->
+  mc_loop fuel (w ++ [prev]) x =
+    MDone (w ++ [prev] ++ b ++ [42%N; 47%N]) false
+          (mkst tail (off x + List.length b + 2)%nat (line x) (col x + Z.of_nat (List.length b) + 2) (errs x)).
+Proof.
+  induction b as [|c b IH]; intros prev w x tail fuel Hr Hc Hf.
+  - destruct fuel as [|[|f]]; try (cbn in Hf; lia). cbn [app] in Hr.
+    cbn [mc_loop]. rewrite Hr, (peek1_single 42 (47%N :: tail) eq_refl eq_refl).
+    rewrite (pop1_single true 42 (47%N :: tail) x Hr eq_refl eq_refl).
+    change (s "*/") with [42%N; 47%N]. rewrite <- app_assoc. cbn [app]. rewrite ends2. cbn [N.eqb Pos.eqb andb].
+    rewrite andb_false_r.
+    assert (Hd : match tail with d :: _ => std_digraph 47 d = None | [] => True end) by (destruct tail; [exact I|reflexivity]).
+    cbn [rest]. rewrite (peek1_single 47 tail eq_refl Hd).
+    rewrite (pop1_single true 47 tail (mkst (47%N :: tail) _ _ _ _) eq_refl eq_refl Hd).
+    rewrite <- app_assoc. cbn [app]. rewrite ends3. cbn [N.eqb Pos.eqb andb].
+    cbn [app rest off line col errs List.length]. f_equal. f_equal; lia.
+  - destruct fuel as [|f]; [cbn in Hf; lia|]. cbn [app] in Hr, Hc. cbn [chain_ok] in Hc.
+    apply andb_prop in Hc. destruct Hc as [Hc Hch]. apply andb_prop in Hc. destruct Hc as [Hcok Hp].
+    destruct (cok_inv c Hcok) as (_ & H63 & _ & _). pose proof (chain_head c b 42 (47%N :: tail) Hch) as Hd.
+    cbn [mc_loop]. rewrite Hr, (peek1_single c _ H63 Hd). rewrite (pop1_single true c _ x Hr Hcok Hd).
+    change (s "*/") with [42%N; 47%N]. rewrite <- app_assoc. cbn [app]. rewrite ends2.
+    destruct (pair_ok_inv prev c Hp) as [_ Hpc].
+    replace (N.eqb 42 prev && (N.eqb 47 c && true)) with false
+      by (rewrite andb_true_r, (N.eqb_sym 42 prev), (N.eqb_sym 47 c); symmetry; exact Hpc).
+    change (w ++ [prev; c]) with (w ++ [prev] ++ [c]). rewrite app_assoc.
+    rewrite (IH c (w ++ [prev]) _ tail f); [|reflexivity|exact Hch|cbn in Hf; lia].
+    cbn [rest off line col errs List.length app]. rewrite <- !app_assoc. cbn [app]. f_equal. f_equal; lia.
+Qed.
+
+(* ------------------------------------------------------------------ one step on `/* body */ ...` *)
+Definition MULT_COMMENT : str := s "MULT_COMMENT".
+Definition NEWLINE : str := s "NEWLINE".
+Definition comment_text (body : str) : str := 47%N :: 42%N :: body ++ [42%N; 47%N].
+
+Lemma run_parser_names uw ud x :
+  run_parser uw ud (s "parse_float_literal") x = parse_float_literal uw ud x /\
+  run_parser uw ud (s "parse_integer_literal") x = parse_integer_literal uw ud x /\
+  run_parser uw ud (s "parse_char_literal") x = parse_char_literal x /\
+  run_parser uw ud (s "parse_string_literal") x = parse_string_literal x /\
+  run_parser uw ud (s "parse_identifier") x = parse_identifier x /\
+  run_parser uw ud (s "parse_whitespace") x = parse_whitespace x /\
+  run_parser uw ud (s "parse_line_comment") x = parse_line_comment x /\
+  run_parser uw ud (s "parse_multi_line_comment") x = parse_multi_line_comment x.
+Proof. repeat split; reflexivity. Qed.
+
+Lemma parsers_on_comment uw ud T o l c e t x' :
+  parse_multi_line_comment (mkst (47%N :: 42%N :: T) o l c e) = PTok t x' ->
+  try_parsers uw ud parsers (mkst (47%N :: 42%N :: T) o l c e) = PTok t x'.
+Proof.
+  intros HP. set (x := mkst (47%N :: 42%N :: T) o l c e) in *.
+  destruct (run_parser_names uw ud x) as (E1 & E2 & E3 & E4 & E5 & E6 & E7 & E8).
+  unfold parsers. cbn [try_parsers]. rewrite E1, E2, E3, E4, E5, E6, E7, E8.
+  assert (F1 : parse_float_literal uw ud x = PNone) by (subst x; cbn; reflexivity).
+  assert (F2 : parse_integer_literal uw ud x = PNone) by (subst x; cbn; reflexivity).
+  assert (F3 : parse_char_literal x = PNone) by (subst x; cbn; reflexivity).
+  assert (F4 : parse_string_literal x = PNone) by (subst x; cbn; reflexivity).
+  assert (F5 : parse_identifier x = PNone) by (subst x; cbn; reflexivity).
+  assert (F6 : parse_whitespace x = PNone) by (subst x; cbn; reflexivity).
+  assert (F7 : parse_line_comment x = PNone) by (subst x; cbn; reflexivity).
+  rewrite F1, F2, F3, F4, F5, F6, F7, HP. reflexivity.
+Qed.
+
+Lemma parse_comment_line body tail o l c e : body_ok body = true ->
+  parse_multi_line_comment (mkst (47%N :: 42%N :: body ++ 42%N :: 47%N :: tail) o l c e) =
+    PTok (mktok MULT_COMMENT l c (Some (comment_text body)))
+         (mkst tail (o + List.length body + 4)%nat l (c + Z.of_nat (List.length body) + 4) e).
+Proof.
+  intros Hb. set (T := body ++ 42%N :: 47%N :: tail).
+  assert (Hd : match T with d :: _ => std_digraph 42 d = None | [] => True end) by (destruct T; [exact I|reflexivity]).
+  unfold parse_multi_line_comment. cbn [rest raw_peek firstn].
+  change (negb (str_eqb [47%N; 42%N] (s "/*"))) with false. cbn iota. unfold of_popres. cbn [popn].
+  rewrite (pop1_single false 47 (42%N :: T) (mkst (47%N :: 42%N :: T) _ _ _ _) eq_refl eq_refl eq_refl).
+  rewrite (pop1_single false 42 T (mkst (42%N :: T) _ _ _ _) eq_refl eq_refl Hd). cbn [app rest off line col errs].
+  change [47%N; 42%N] with ([47%N] ++ [42%N]).
+  rewrite (mc_chain body 42 [47%N] _ tail); [|reflexivity|exact Hb|subst T; rewrite app_length; cbn [List.length]; lia].
+  cbn [rest off line col errs app]. unfold comment_text, MULT_COMMENT. f_equal. f_equal; lia.
+Qed.
+
+Lemma step_comment uw ud body tail o l c e : body_ok body = true ->
+  step uw ud (mkst (47%N :: 42%N :: body ++ 42%N :: 47%N :: tail) o l c e) =
+    StepItem (ITok (mktok MULT_COMMENT l c (Some (comment_text body))) o (o + List.length body + 4)%nat)
+             (mkst tail (o + List.length body + 4)%nat l (c + Z.of_nat (List.length body) + 4) e).
+Proof.
+  intros Hb. unfold step. cbn [rest].
+  assert (A : at_splice (47%N :: 42%N :: body ++ 42%N :: 47%N :: tail) = false) by (cbn; reflexivity).
+  rewrite A, (parsers_on_comment uw ud _ o l c e _ _ (parse_comment_line body tail o l c e Hb)). reflexivity.
+Qed.
+
+Lemma pop1_nl r o l c e :
+  pop1 false false (mkst (10%N :: r) o l c e) = PopOk [10%N] (mkst r (o + 1)%nat (l + 1) 1 e).
+Proof.
+  assert (Hd : match r with d :: _ => std_digraph 10 d = None | [] => True end) by (destruct r; [exact I|reflexivity]).
+  unfold pop1, pop_loop_bound. rewrite pop_inner_S. cbn [rest]. rewrite (peek1_single 10 r eq_refl Hd). reflexivity.
+Qed.
+
+Lemma step_newline uw ud r o l c e :
+  step uw ud (mkst (10%N :: r) o l c e) =
+    StepItem (ITok (mktok NEWLINE l c None) o (o + 1)%nat) (mkst r (o + 1)%nat (l + 1) 1 e).
+Proof.
+  unfold step. cbn [rest].
+  assert (A : at_splice (10%N :: r) = false) by (cbn; reflexivity). rewrite A.
+  set (x := mkst (10%N :: r) o l c e).
+  destruct (run_parser_names uw ud x) as (E1 & E2 & E3 & E4 & E5 & E6 & _).
+  unfold parsers. cbn [try_parsers]. rewrite E1, E2, E3, E4, E5, E6.
+  assert (F1 : parse_float_literal uw ud x = PNone) by (subst x; cbn; reflexivity).
+  assert (F2 : parse_integer_literal uw ud x = PNone) by (subst x; cbn; reflexivity).
+  assert (F3 : parse_char_literal x = PNone) by (subst x; cbn; reflexivity).
+  assert (F4 : parse_string_literal x = PNone) by (subst x; cbn; reflexivity).
+  assert (F5 : parse_identifier x = PNone) by (subst x; cbn; reflexivity).
+  rewrite F1, F2, F3, F4, F5.
+  assert (F6 : parse_whitespace x = PTok (mktok NEWLINE l c None) (mkst r (o + 1)%nat (l + 1) 1 e)).
+  { subst x. unfold parse_whitespace. cbn [rest]. change (negb (chr_in 10 ws_chars)) with false. cbn iota.
+    change (N.eqb 10 32) with false. change (N.eqb 10 9) with false. change (N.eqb 10 10) with true. cbn iota.
+    unfold of_popres. rewrite pop1_nl. reflexivity. }
+  rewrite F6. reflexivity.
+Qed.
+
+(* ------------------------------------------------------------------ k comment lines, then any text *)
+Definition text_of_lines (ls : list str) : str := List.concat (map (fun l => l ++ [10%N]) ls).
+Definition comment_lines (bs : list str) : str := text_of_lines (map comment_text bs).
+
+Fixpoint comment_items (o : nat) (l : Z) (bs : list str) : list item :=
+  match bs with
+  | [] => []
+  | b :: r =>
+      ITok (mktok MULT_COMMENT l 1 (Some (comment_text b))) o (o + List.length b + 4)%nat
+      :: ITok (mktok NEWLINE l (1 + Z.of_nat (List.length b) + 4) None) (o + List.length b + 4)%nat (o + List.length b + 4 + 1)%nat
+      :: comment_items (o + List.length b + 4 + 1)%nat (l + 1) r
+  end.
+
+Lemma comment_lines_cons b bs X :
+  comment_lines (b :: bs) ++ X = 47%N :: 42%N :: b ++ 42%N :: 47%N :: 10%N :: (comment_lines bs ++ X).
+Proof.
+  unfold comment_lines, text_of_lines, comment_text. cbn [map List.concat app]. repeat (rewrite <- app_assoc; cbn [app]).
+  reflexivity.
+Qed.
+
+Lemma comment_lines_length b bs :
+  List.length (comment_lines (b :: bs)) = (List.length b + 4 + 1 + List.length (comment_lines bs))%nat.
+Proof.
+  pose proof (comment_lines_cons b bs []) as H. rewrite !app_nil_r in H. rewrite H. cbn [List.length].
+  rewrite app_length. cbn [List.length]. lia.
+Qed.
+
+Lemma comment_lines_long bs : (5 * List.length bs <= List.length (comment_lines bs))%nat.
+Proof. induction bs as [|b bs IH]; [cbn; lia|]. rewrite comment_lines_length. cbn [List.length]. lia. Qed.
+
+Section Compose.
+  Variable uw ud : N -> bool.
+
+  Lemma lex_lines : forall bs src o l e acc fuel, forallb body_ok bs = true -> (2 * List.length bs <= fuel)%nat ->
+    lex_loop uw ud fuel (mkst (comment_lines bs ++ src) o l 1 e) acc =
+    lex_loop uw ud (fuel - 2 * List.length bs) (mkst src (o + List.length (comment_lines bs))%nat (l + Z.of_nat (List.length bs)) 1 e)
+             (rev (comment_items o l bs) ++ acc).
+  Proof.
+    induction bs as [|b bs IH]; intros src o l e acc fuel Hb Hf.
+    - cbn [comment_lines text_of_lines map List.concat app List.length comment_items rev]. f_equal; try lia. f_equal; lia.
+    - cbn [forallb] in Hb. apply andb_prop in Hb. destruct Hb as [Hb Hbs].
+      destruct fuel as [|[|f]]; try (cbn [List.length] in Hf; lia).
+      rewrite comment_lines_cons. cbn [lex_loop]. rewrite (step_comment uw ud b _ o l 1 e Hb).
+      rewrite step_newline. rewrite IH; [|exact Hbs|cbn [List.length] in Hf; lia].
+      rewrite comment_lines_length. cbn [List.length comment_items rev]. rewrite <- !app_assoc. cbn [app].
+      f_equal; [lia|f_equal; lia].
+  Qed.
+
+  (* the composition, unconditionally *)
+  Theorem lex_comment_lines_then_text : forall bs src items xf, forallb body_ok bs = true ->
+    lex uw ud src = Ok (items, xf) ->
+    lex uw ud (comment_lines bs ++ src) =
+      Ok (comment_items 0 1 bs ++ map (sh_item (Z.of_nat (List.length bs)) (List.length (comment_lines bs))) items,
+          shl (Z.of_nat (List.length bs)) (List.length (comment_lines bs)) xf).
+  Proof.
+    intros bs src items xf Hb Hs. unfold lex at 1. unfold init. pose proof (comment_lines_long bs) as HL.
+    rewrite lex_lines; [|exact Hb|rewrite app_length; lia].
+    change (0 + List.length (comment_lines bs))%nat with (List.length (comment_lines bs)).
+    rewrite (continue_after_prefix uw ud src _ _ _ items xf _ Hs); [|rewrite app_length; lia].
+    rewrite app_nil_r, rev_involutive. reflexivity.
+  Qed.
+
+  (* the steps inside the comment lines are local: the hypothesis of prefix_then_text_given_locality holds *)
+  Lemma step_end o l c e : step uw ud (mkst [] o l c e) = StepEnd.
+  Proof. reflexivity. Qed.
+
+  Lemma comment_lines_local : forall bs src o l e fuel, forallb body_ok bs = true ->
+    steps_local uw ud src fuel (mkst (comment_lines bs) o l 1 e).
+  Proof.
+    induction bs as [|b bs IH]; intros src o l e fuel Hb.
+    - destruct fuel; [exact I|]. cbn [steps_local]. change (comment_lines []) with (@nil N). rewrite step_end. exact I.
+    - cbn [forallb] in Hb. apply andb_prop in Hb. destruct Hb as [Hb Hbs].
+      destruct fuel as [|fuel]; [exact I|]. cbn [steps_local].
+      pose proof (comment_lines_cons b bs []) as E0. rewrite !app_nil_r in E0. rewrite E0.
+      rewrite (step_comment uw ud b _ o l 1 e Hb). split.
+      + unfold ext. cbn [rest off line col errs]. rewrite <- E0, comment_lines_cons.
+        rewrite (step_comment uw ud b _ o l 1 e Hb). reflexivity.
+      + destruct fuel as [|fuel]; [exact I|]. cbn [steps_local]. rewrite step_newline. split.
+        * unfold ext. cbn [rest off line col errs app]. rewrite step_newline. reflexivity.
+        * apply IH. exact Hbs.
+  Qed.
+End Compose.
